@@ -20,6 +20,7 @@ import (
 
 type reproStep struct {
 	write  string // "shard measurement k=v,k=v ts"  (tags may be "-")
+	writeN string // "shard measurement n": one batch of n series measurement,host=h000.. at the shard's window start
 	drop   string // DROP SERIES FROM <measurement> WHERE <key> = <value>
 	dropM  string // DROP MEASUREMENT
 	window string // DELETE FROM <measurement> WHERE time >= <min> AND time <= <max>
@@ -87,11 +88,10 @@ var repros = map[string]reproCase{
 	},
 	// tsi1 log replay skips a series tombstone whose key the compacted series file no longer resolves
 	"tsi1-cardinality-after-sfile-compaction-and-reopen": {
-		maxLog: 1 << 20, shards: []uint64{1},
+		maxLog: 256, shards: []uint64{1},
 		steps: []reproStep{
-			{write: "1 cpu host=a 1000"},
-			{write: "1 cpu host=b 1001"},
-			{drop: "cpu host a"},
+			{writeN: "1 cpu 400"}, // every partition's log file exceeds 256 bytes and is compacted to an index file
+			{drop: "cpu host h000"},
 			{sfile: true},
 			{reopen: true},
 		},
@@ -145,6 +145,17 @@ func runRepro(name, dir string) {
 				}
 				ops = append(ops, fmt.Sprintf("write shard=%d %s,%s @%d", shard, meas, tags, ts))
 				err = e.Write(shard, []Pt{{newSeries(meas, tm), ts}})
+			case st.writeN != "":
+				var shard uint64
+				var meas string
+				var n int
+				fmt.Sscan(st.writeN, &shard, &meas, &n)
+				var pts []Pt
+				for i := 0; i < n; i++ {
+					pts = append(pts, Pt{newSeries(meas, map[string]string{"host": fmt.Sprintf("h%03d", i)}), int64(shard) * 1000})
+				}
+				ops = append(ops, fmt.Sprintf("write shard=%d one batch of %d series %s,host=h000..h%03d", shard, n, meas, n-1))
+				err = e.Write(shard, pts)
 			case st.drop != "":
 				f := strings.Fields(st.drop)
 				ops = append(ops, fmt.Sprintf("DROP SERIES FROM %q WHERE %s = '%s'", f[0], f[1], f[2]))
